@@ -51,3 +51,25 @@ def classify(s, r):
 
 def signature(s):
     return s.text()
+
+
+def nontrivial(pid, s, r):
+    """a history is non-trivial for a property when it reaches the branches that property is about"""
+    obs = " ".join(r["obs"])
+    ops = [op for _, op in s.hist]
+    has_panic = any(op[0] == "panic" or (op[0] == "acq" and len(op) > 5 and ("panic",) in op[5]) for op in ops)
+    if pid == "C06":
+        return "RB false" in obs or has_panic or any(op[0] in ("kforget", "gforget") for op in ops) or "RWouldBlock" in obs
+    if pid == "C03":
+        return obs.count("(ROk)") >= 3 and any(op[0] in ("gdrop", "gunlock") for op in ops)
+    if pid == "C04":
+        return "RWouldBlock" in obs or "EMark" in obs or "RBlocked" in obs
+    if pid == "C05":
+        return "OUnlock" in obs
+    if pid == "C10":
+        return has_panic and s.npids > 0
+    if pid == "C11":
+        return has_panic and "RPanicked" in obs
+    if pid == "C17":
+        return any(op[0] in ("fmt", "ispoisoned", "clear") for op in ops) and ("Some" in obs or "[1" in obs)
+    return True
